@@ -282,15 +282,17 @@ class CancelScope(AbstractCancelScope):
         self.__current_task_scope_dict[host_task].popleft()
 
         if self.__cancel_called:
+            cancelled_errors: list[asyncio.CancelledError] = []
             if exc_val is not None:
-                self.__cancelled_caught = any(
-                    self.__uncancel_task(host_task, exc)
-                    for exc in _utils.iterate_exceptions(exc_val)
-                    if isinstance(exc, asyncio.CancelledError)
+                cancelled_errors.extend(
+                    exc for exc in _utils.iterate_exceptions(exc_val) if isinstance(exc, asyncio.CancelledError)
                 )
+            if cancelled_errors:
+                self.__cancelled_caught = any(self.__uncancel_task(host_task, exc) for exc in cancelled_errors)
             else:
-                # The cancellation never surfaced in the body (e.g. it was shielded until the end):
-                # take back our own task.cancel() calls, otherwise the task keeps a non-zero cancelling() count.
+                # The cancellation never surfaced in the body (e.g. it was shielded until the end, or the shielded
+                # operation ended with another exception): take back our own task.cancel() calls,
+                # otherwise the task keeps a non-zero cancelling() count.
                 while self.__host_task_cancel_calls:
                     self.__host_task_cancel_calls -= 1
                     if host_task.uncancel() <= self.__host_task_cancelling:
